@@ -137,10 +137,13 @@ PROPS = {
         "kani": ["c03_fri"],
         "verus": [],
         "level_text": "Deterministic rejection clauses of the FRI verifier as implications of verify(): revealed layer values "
-                      "bound to the layer commitment, remainder bound to the last commitment and to the degree bound, "
-                      "argument-count mismatch rejected.",
+                      "bound to the layer commitment, remainder bound to the last commitment and to the degree bound (a remainder "
+                      "one coefficient longer than the bound is rejected), a queried evaluation accepted exactly when it lies on "
+                      "the committed remainder polynomial (zero-layer instance), argument-count mismatch rejected.",
         "level_note": "The probabilistic clause (far-from-low-degree data is rejected) is not decidable by contracts. Bounded "
-                      "instances as in C03; folding consistency across a real folded layer is not covered.",
+                      "instances as in C03. NOT under contract: the per-position folding-consistency check of verify_generic with "
+                      "at least one FRI layer (a fully fixed one-layer instance with two symbolic evaluations did not finish in 25 "
+                      "minutes) - seed C09-folding-check-first-match-only is not caught.",
     },
     "C13": {
         "level": "model_checking",
